@@ -78,6 +78,74 @@ example : (session toy 2 { src := [[7], [], [8, 9]] } [3, 3, 3, 3, 3, 3, 3, 3]).
     toyDec (session toy 2 { src := [[7], [], [8, 9]] } [3, 3, 3, 3, 3, 3, 3, 3]).1.flatten = some [7, 8, 9] := by
   decide
 
+/-- **Rule files.**  A rule that `ActionFileCheck` lets through carries a flush size in [64, 4096] (in
+    particular > 0) and a quality in the compressor's range; a missing Quality/FlushSize never loads. -/
+theorem C54_loaded_in_range (cmd : Option Cmd) (q fs : Option Int)
+    (h : actionFileCheck cmd q fs = .ok) :
+    ∃ qv f, q = some qv ∧ fs = some f ∧ 64 ≤ f ∧ f ≤ 4096 ∧
+      ((cmd = some .gzip ∧ -2 ≤ qv ∧ qv ≤ 9) ∨ (cmd = some .brotli ∧ 0 ≤ qv ∧ qv ≤ 11)) := by
+  unfold actionFileCheck at h
+  cases cmd with
+  | none => simp at h
+  | some c =>
+    cases c with
+    | other => simp at h
+    | gzip =>
+      cases q with
+      | none => simp at h
+      | some qv =>
+        cases fs with
+        | none => simp at h; split at h <;> simp at h
+        | some f =>
+          simp only [if_true] at h
+          split at h
+          · simp at h
+          · split at h
+            · simp at h
+            · rename_i h1 h2
+              simp only [Bool.or_eq_true, decide_eq_true_eq, not_or, Int.not_lt] at h1 h2
+              exact ⟨qv, f, rfl, rfl, h2.1, h2.2, Or.inl ⟨rfl, h1.1, h1.2⟩⟩
+    | brotli =>
+      cases q with
+      | none => simp at h
+      | some qv =>
+        cases fs with
+        | none => simp at h; split at h <;> simp at h
+        | some f =>
+          simp only [show ¬ (Cmd.brotli = Cmd.gzip) by decide, if_false] at h
+          split at h
+          · simp at h
+          · split at h
+            · simp at h
+            · rename_i h1 h2
+              simp only [Bool.or_eq_true, decide_eq_true_eq, not_or, Int.not_lt] at h1 h2
+              exact ⟨qv, f, rfl, rfl, h2.1, h2.2, Or.inr ⟨rfl, h1.1, h1.2⟩⟩
+
+/-- **Progress of the chunked copy loop** (induction over the source length).  With a flush size > 0
+    — which every loaded rule has, `C54_loaded_in_range` — repeating `CopyN(writer, source, flushSize)`
+    until a call copies nothing has copied ALL bytes of the source, for every chunking: "copied nothing"
+    happens only at the end of the source.  At most `n + 1` calls are needed for `n` bytes. -/
+theorem C54_copy_progress (fs : Nat) (hfs : 0 < fs) (n : Nat) (src : List Bytes)
+    (hlen : src.flatten.length ≤ n) :
+    (drain fs (n + 1) src).1 = src.flatten ∧ (drain fs (n + 1) src).2 = [] :=
+  drain_all fs hfs n src hlen
+
+/-- … and the hypothesis is necessary: with flush size 0 the very first CopyN copies nothing from a
+    non-empty source, which `Read` takes for the end of the body (the filter then closes the compressor
+    and delivers a valid, EMPTY stream).  This is why a loader that lets FlushSize 0 through breaks C54. -/
+theorem C54_witness_flush0 (d : Bytes) (rest : List Bytes) :
+    copyN (d :: rest) 0 = ([], d :: rest) ∧
+    ∀ {S : Type} (cp : Comp S) (p : Nat),
+      (fread cp 0 { src := d :: rest } p).2.trace = [Op.c] ∧ (fread cp 0 { src := d :: rest } p).2.src = d :: rest := by
+  refine ⟨by simp [copyN, copyLoop], ?_⟩
+  intro S cp p
+  simp [fread, copyN, copyLoop]
+
+example : actionFileCheck (some .brotli) (some 4) (some 64) = .ok := by decide
+example : actionFileCheck (some .brotli) (some 4) (some 0) = .err := by decide
+example : actionFileCheck (some .gzip) none (some 512) = .panic := by decide
+example : (drain 2 6 [[7], [], [8, 9, 10], [11]]).1 = [7, 8, 9, 10, 11] := by decide
+
 /-- **C54_headers.**  If the handler installs a compression filter then it announces that coding in
     Content-Encoding, removes Content-Length, the response was not already encoded, and the request's
     Accept-Encoding contains the coding as a `HasToken` token; otherwise both headers are untouched. -/
